@@ -107,7 +107,13 @@ impl SocketSend for RouterSocket {
         let peer_id: PeerIdentity = message.pop_front().unwrap().try_into()?;
         match self.backend.peers.get_async(&peer_id).await {
             Some(mut peer) => {
-                peer.send_queue.send(Message::Message(message)).await?;
+                let sent = peer.send_queue.send(Message::Message(message)).await;
+                drop(peer);
+                if let Err(e) = sent {
+                    // The destination's connection is dead: release it.
+                    self.backend.peer_disconnected(&peer_id);
+                    return Err(e.into());
+                }
                 Ok(())
             }
             None => Err(ZmqError::Other("Destination client not found by identity")),
